@@ -108,9 +108,11 @@ var c02Carriers = []string{"load", "store", "storeimm", "alu_load", "alu_store",
 func VC02Carriers() {
 	mode := []int{16, 32}[vrt.Choose("mode", 2)]
 	carrier := vrt.ChooseStr("carrier", c02Carriers)
-	shapes := []MemSpec{{Base: "BX"}, {Base: "BP", Index: "SI"}, {}, {Base: "EBX"}, {Base: "ESP"}, {Base: "EBP", Index: "EDI", Scale: 8}, {Index: "EAX", Scale: 4}}
+	// (the quick tier's shapes are a prefix of the full list, so that a shape
+	// index means the same operand in both tiers)
+	shapes := []MemSpec{{Base: "BX"}, {}, {Base: "EBP", Index: "EDI", Scale: 8}, {Base: "BP", Index: "SI"}, {Base: "EBX"}, {Base: "ESP"}, {Index: "EAX", Scale: 4}}
 	if vrt.Param("allregs") == 0 {
-		shapes = []MemSpec{{Base: "BX"}, {}, {Base: "EBP", Index: "EDI", Scale: 8}}
+		shapes = shapes[:3]
 	}
 	m := shapes[vrt.Choose("shape", len(shapes))]
 	m = displacement(m)
